@@ -11,6 +11,13 @@ C13Labels(c) ==
   ELSE (IF ~SameBehaviour(c.reps) THEN {"representation-changes-behaviour"} ELSE {})
        \cup (IF ~NoCrash(c.reps) THEN {"crash"} ELSE {})
 \* C07 (documents): loading and compiling any document yields a specification or an error
+\* C13 (documents): what is rejected at compile time is rejected every time - by a second Compile of the same object, and
+\* when the same document is read and compiled once more
+MalformedC13Labels(c) ==
+  IF c.kind # "malformed" THEN {} ELSE
+  (IF \E i \in DOMAIN c.results : "compile2" \in DOMAIN c.results[i] /\ c.results[i].compile = "error" /\ c.results[i].compile2 # "error"
+   THEN {"recompile-accepts-what-compile-rejected"} ELSE {})
+
 C07Labels(c) ==
   IF c.kind # "malformed" THEN {} ELSE
   IF \E i \in DOMAIN c.results : c.results[i].outcome # "returned" THEN {"crash-on-document"} ELSE {}
@@ -19,7 +26,7 @@ Init == l = 1 /\ bad = <<>> /\ stats = [specs |-> 0, renderings |-> 0, unknowns 
 Next ==
   /\ l <= Len(Trace)
   /\ l' = l + 1
-  /\ LET c == Trace[l] a == C13Labels(c) b == C07Labels(c) IN
+  /\ LET c == Trace[l] a == C13Labels(c) \cup MalformedC13Labels(c) b == C07Labels(c) IN
      /\ bad' = (IF a \cup b = {} THEN bad
                 ELSE Append(bad, [id |-> c.id, line |-> l, c13 |-> a, c07 |-> b,
                                   differing |-> IF c.kind = "load" /\ c.unknown = "" THEN DiffReps(c.reps) ELSE {}, sigs |-> {}]))
